@@ -42,7 +42,8 @@ vp_q_of(const nni_list *l)
 }
 /* the head leaves: whoever is behind it (if anyone) is the stand-in aio `later`: an arbitrary
  * well-formed vector (fixed by the precondition, the same for every later head -- each loop
- * iteration is verified for every such vector) with an arbitrary byte count */
+ * iteration is verified for every such vector) whose byte count is arbitrary at every
+ * loop head (it is a target of the loop's assigns clause) */
 static void
 vp_q_pop(vp_q *q, nni_aio *aio)
 {
@@ -50,9 +51,6 @@ vp_q_pop(vp_q *q, nni_aio *aio)
 	q->s.orig = false;
 	g_pops++;
 	g_pop_last = aio;
-	if (g_q_objects) {
-		q->later->a_count = nondet_size_t();
-	}
 }
 void *
 nni_list_first(const nni_list *l)
@@ -156,7 +154,7 @@ vp_syscall(int kind, int fd, int flags, const struct iovec *v, size_t nv)
 	g_sys.head  = head;
 	__CPROVER_assert(head != NULL, "syscall: only while an aio is waiting in that direction");
 	__CPROVER_assert(nv <= NNI_AIO_MAX_IOV, "syscall: at most NNI_AIO_MAX_IOV entries offered");
-	for (unsigned i = 0; i < NNI_AIO_MAX_IOV; i++) {
+	for (unsigned i = 0; i < VP_NIO_CAP; i++) {
 		if (i < nv && nv <= NNI_AIO_MAX_IOV) {
 			g_sys.v[i] = v[i];
 			total += v[i].iov_len;
@@ -169,7 +167,8 @@ vp_syscall(int kind, int fd, int flags, const struct iovec *v, size_t nv)
 		size_t   cum  = 0;
 		unsigned rank = 0;
 		bool     same = true;
-		for (unsigned j = 0; j < NNI_AIO_MAX_IOV; j++) {
+		__CPROVER_assert(head->a_nio <= VP_NIO_CAP, "syscall: head aio vector within the bound of this unit");
+		for (unsigned j = 0; j < VP_NIO_CAP; j++) {
 			if (j < head->a_nio && head->a_iov[j].iov_len > 0 && cum <= (size_t) INT_MAX) {
 				size_t want = VP_MIN(head->a_iov[j].iov_len, (size_t) INT_MAX - cum);
 				same = same && rank < nv && g_sys.v[rank & 7u].iov_base == head->a_iov[j].iov_buf && g_sys.v[rank & 7u].iov_len == want;
@@ -198,7 +197,7 @@ vp_syscall(int kind, int fd, int flags, const struct iovec *v, size_t nv)
 		return (r);
 	}
 	int e = nondet_int();
-	if (e <= 0) {
+	if (e <= 0 || e > 4095) { /* errno values are small positive numbers */
 		e = ECONNRESET;
 	}
 	if (e == EINTR) {
